@@ -201,6 +201,16 @@ def end_to_end(ctx, n):
                 if p not in ("", "/"):
                     break
             pats.append(p)
+        if t % 5 == 2:
+            # a recursive wildcard in the MIDDLE of a pattern also stands for no directory at all: /src/**/gen matches /src/gen
+            leaf = {"k": "f", "data": "67", "mode": 0o644, "mtime": 10**18 + 6}
+            def dd(c_):
+                return {"k": "d", "mode": 0o755, "mtime": 10**18, "c": c_}
+            tree["c"]["src"] = dd({"gen": dd({"out.rs": dict(leaf)}), "mod": dd({"gen": dd({"x": dict(leaf)}), "keep": dict(leaf)}), "general": dict(leaf)})
+            pats = [ctx.rng.choice(["/src/**/gen", "src/**/gen", "/src/**/gen/*", "/src/**/mod/gen"])]
+            if ctx.rng.random() < 0.3:
+                pats.append("/src/mod/**/x")
+            names = tree_names(tree)
         if t % 5 == 3:
             # a narrow pattern followed by a broader one whose TEXT the narrow one matches ("backup.?" then "backup.*"):
             # the set means the union; entries that only the broader one matches are in the tree
